@@ -2,6 +2,7 @@ package main
 
 import (
 	"fmt"
+	"os"
 	"strings"
 	"go/constant"
 	"go/token"
@@ -36,7 +37,7 @@ type Engine struct {
 	violations []*Violation
 	stateSeq   int
 	stats      struct {
-		paths, forks, asserts, assertUnsat, assertSat, assertTrivial, feas, steps int
+		paths, forks, asserts, assertUnsat, assertSat, assertTrivial, feas, steps, cacheHits int
 		byStatus                                               map[Status]int
 	}
 	reached     map[string]bool
@@ -53,6 +54,7 @@ type Engine struct {
 	cross       CrossStats
 	second      *Solver
 	samples     []Sample
+	qcache      map[qkey]bool
 }
 
 type SymPtr struct {
@@ -63,17 +65,53 @@ type SymPtr struct {
 	Idx  *Term // 64-bit index relative to Off
 }
 
-func (e *Engine) feasible(st *State, extra *Term) bool {
+var slowMs = func() int { n := 0; fmt.Sscanf(os.Getenv("SYMGO_SLOW"), "%d", &n); return n }()
+
+type qkey struct {
+	h1, h2 uint64
+	n, q   int
+}
+
+func (e *Engine) feasible(st *State, extra *Term) (res bool) {
 	if extra.IsTrue() {
 		return true
 	}
 	if extra.IsFalse() {
 		return false
 	}
+	// syntactic shortcuts: the condition (or its negation) is already a conjunct of the path condition
+	neg := Not(extra)
+	for _, c := range st.pc {
+		if c == extra {
+			return true
+		}
+		if c == neg {
+			return false
+		}
+	}
+	key := qkey{st.pcH1, st.pcH2, len(st.pc), extra.id}
+	if r, ok := e.qcache[key]; ok {
+		e.stats.cacheHits++
+		return r
+	}
+	if e.qcache == nil {
+		e.qcache = map[qkey]bool{}
+	}
+	defer func() { e.qcache[key] = res }()
 	e.stats.feas++
-	r := e.solver.Check(append(sliceFor(st.pc, extra), extra))
+	var r Result
+	if prefixMode {
+		r = e.solver.CheckPC(st.pc, extra)
+	} else {
+		r = e.solver.Check(append(sliceFor(st.pc, extra), extra))
+	}
 	if r == Sat {
 		e.solver.Pop()
+	}
+	if slowMs > 0 && len(e.solver.Durs) > 0 {
+		if d := e.solver.Durs[len(e.solver.Durs)-1]; d.Milliseconds() >= int64(slowMs) {
+			fmt.Printf("SLOW %dms res=%v pc=%d at %s\n", d.Milliseconds(), r, len(st.pc), st.stack()[0])
+		}
 	}
 	return r != Unsat
 }
